@@ -397,7 +397,12 @@ where
             ["seek", _, wh, d] => match (fdarg(1), d.parse::<i64>()) {
                 (Some(fd), Ok(d)) => {
                     if is_dir_fd(sys, fd) {
-                        "dir".to_string()
+                        // where a directory stream stands is file-system specific; rewinding it is not
+                        match sys.lseek(fd, SeekFrom::Start(0)) {
+                            Ok(0) => "dir".to_string(),
+                            Ok(n) => format!("dir!{n}"),
+                            Err(e) => errno_name(e),
+                        }
                     } else {
                         let pos = match *wh {
                             "s" if d >= 0 => Some(SeekFrom::Start(d as u64)),
@@ -948,6 +953,14 @@ where
                 Err(e) => errno_name(e),
             })
         }
+        // a soft limit above the hard limit: EINVAL, nothing changes
+        ["badlim", n] => {
+            let n: u64 = n.parse().ok()?;
+            Some(match sys.setrlimit(Resource::NOFILE, LimitPair { soft: (n + 1) as _, hard: n as _ }) {
+                Ok(()) => "ok".to_string(),
+                Err(e) => errno_name(e),
+            })
+        }
         ["klast", ..] | ["kgrp", ..] | ["kpar", ..] | ["kself", ..] => None,
         _ => match sig_op(sys, op, pending, None).now_or_never() {
             Some(t) => t,
@@ -1047,6 +1060,11 @@ fn x_virtual(limit: u64, ops: &[&str]) -> String {
         }
         let w: Vec<&str> = op.split_whitespace().collect();
         match w.as_slice() {
+            ["wself"] => Some(match sys.wait(yash_env::system::GetPid::getpid(sys)) {
+                Ok(Some((_, st))) => show_wait::<VirtualSystem>(st),
+                Ok(None) => "RUNNING".to_string(),
+                Err(e) => errno_name(e),
+            }),
             ["wz"] => Some(match last_child {
                 None => "?".to_string(),
                 Some(pid) => match sys.wait(pid) {
@@ -1156,6 +1174,11 @@ fn x_real_body(sys: &RealSystem, root: &str, limit: u64, ops: &[&str]) -> (Vec<S
         }
         let w: Vec<&str> = op.split_whitespace().collect();
         match w.as_slice() {
+            ["wself"] => Some(match sys.wait(yash_env::system::GetPid::getpid(sys)) {
+                Ok(Some((_, st))) => show_wait::<RealSystem>(st),
+                Ok(None) => "RUNNING".to_string(),
+                Err(e) => errno_name(e),
+            }),
             ["wz"] => Some(match last_child {
                 None => "?".to_string(),
                 Some(pid) => match sys.wait(pid) {
@@ -1398,7 +1421,9 @@ struct Gen {
 /// (ENOTDIR; was divergence D12 until fixed), 's' any of these followed by one or more slashes (the name must
 /// then be a directory; with O_CREAT Linux answers EISDIR whatever it is — the simulator creates a regular
 /// file, divergence D19, so O_CREAT on these is only generated in class `slashcreate`)
-const TARGETS: [(&str, char); 37] = [
+const TARGETS: [(&str, char); 38] = [
+    // `..` after a missing directory: ENOENT for every flag combination, O_CREAT included (nothing is created)
+    ("nd/..", 'q'),
     ("f1", 'f'),
     ("f2", 'f'),
     ("d1/g", 'f'),
@@ -1957,6 +1982,7 @@ fn gen_pipefull(rng: &mut Rng) -> String {
             ops.push("sel 3 w".into());
             ops.push("sel 3 r".into());
             ops.push("sel 9 w".into());
+            ops.push("sel 9 r".into());
         }
         _ => {}
     }
@@ -2055,7 +2081,7 @@ fn x_parent_op(g: &mut Gen, sim: &mut XSim, out: &mut Vec<String>) {
                 out.push(format!("act {s} {d}"));
             }
         }
-        _ => out.push((*g.rng.pick(&["mask", "pend", "cwd", "rlim", "umask 27", "umask 77", "umask 2"])).to_string()),
+        _ => out.push((*g.rng.pick(&["mask", "pend", "cwd", "rlim", "umask 27", "umask 77", "umask 2", "badlim 9", "wself", "badlim 3"])).to_string()),
     }
 }
 
@@ -2100,7 +2126,7 @@ fn x_child_body(g: &mut Gen, class: &str) -> Vec<String> {
             // only signals the child never raises: setting SIG_IGN on a pending signal discards it on a real kernel
             // and not on the simulator (divergence D15, documented, not generated)
             10 => body.push(format!("act {} {}", g.rng.pick(&["USR1", "USR2", "TERM"]), g.rng.pick(&["i", "c"]))),
-            _ => body.push((*g.rng.pick(&["raise URG", "raise WINCH", "caught", "pend"])).to_string()),
+            _ => body.push((*g.rng.pick(&["raise URG", "raise WINCH", "caught", "pend", "badlim 6"])).to_string()),
         }
     }
     g.cwd = saved_cwd;
@@ -3145,7 +3171,7 @@ fn run_shell_case(tag: &str, script: &str) {
 /// (tag, script template); `%` is replaced by a per-instance suffix.  Tag `clean` = no catalogued
 /// divergence is involved.  Only built-ins of the real binary are used (`alias` without aliases is
 /// the do-nothing regular built-in, `typeset -p` the printer).
-const FRAGMENTS: [(&str, &str); 146] = [
+const FRAGMENTS: [(&str, &str); 147] = [
     ("clean", "x%=one; typeset -p x% >o%; x%=two; typeset -p x% >o%; read -r l <o%; typeset -p l"),
     ("clean", "x%=ap; typeset -p x% >>a%; x%=bp; typeset -p x% >>a%; umask >>a%"),
     ("clean", "set -C; alias >f1; s=$?; typeset -p s; typeset -p s >|f1; alias >n%; set +C; read -r l <f1; typeset -p l"),
@@ -3190,6 +3216,8 @@ const FRAGMENTS: [(&str, &str); 146] = [
     ("forkinherit", "exec @F<f1; (read -r a <&@F; typeset -p a); read -r b <&@F; s=$?; typeset -p s b; exec @F<&-"),
     ("forkinherit", "trap '' INT; (trap; trap - INT; trap); trap; v%=$(trap); typeset -p v%; trap - INT"),
     ("zombie", "(exit 3) & wait $!; s=$?; wait $!; t=$?; kill -s 0 $!; u=$?; typeset -p s t u"),
+    // a process group that does not exist (ESRCH from the group branch of kill)
+    ("sigmore", "kill -s 0 -- -2000000000; s=$?; typeset -p s; kill -s TERM -- -2000000001; s=$?; typeset -p s; kill -s 0 0; s=$?; typeset -p s; (kill -s 0 0; s=$?; typeset -p s)"),
     ("zombie", "(exit 5) & p%=$!; wait; kill -s 0 $p%; u=$?; wait $p%; t=$?; typeset -p u t"),
     ("listing", "cd d2; alias >.hid%; alias >vis%; for i in * .h* .* ../d1/.* ../d1/*; do typeset -p i; done; cd .."),
     ("pipeholders", "{ typeset -p PWD; (exec >&-; exit 0); } | { while read -r l; do typeset -p l; done; s=$?; typeset -p s; }"),
